@@ -185,8 +185,16 @@ def method_calls(root, suffix, recv_pred=None):
 
 class ConnSettings:
     """Role anchors of the connection settings struct (public, anchored by def-path).  Its fields are private: each is found as
-    *the field the public setter writes*, never by name.  For a bool request the polarity is read from the setter too: `stored[v]`
-    is the value the field holds after `set_x(v)` (the setter is evaluated exactly for v = true and v = false, the whole domain).
+    *the field its public setter sets*, never by name.  A setter - a public `fn(Self, T) -> Self` of the struct - is read by
+    evaluating it: on every path the settings value it returns is taken apart into one term per field of the struct, over the
+    parameters (`effects`).  How the value is put together is not read: `mut self` + assignment + `self`, the struct-update forms
+    `LdapConnSettings { f: v, ..self }` / `Self { f, ..self }`, a local copy that is modified and returned all give the same terms
+    (a base `..Default::default()` is followed into the Default impl, derived or hand-written).
+      * the setter's own field is the one whose resulting value depends on the argument: for a value `v` the field that receives
+        it, for a bool the field that differs between `set_x(true)` and `set_x(false)` (both evaluated exactly: the whole domain);
+        for a bool request the polarity is read off the same two runs: `stored[v]` is what the field holds after `set_x(v)`;
+      * every other field is expected to be `self`'s own (identity); the ones that are not are recorded in `effects[p]['resets']`
+        and judged by C18 U6 (a setter that silently drops settings made before it in the builder chain).
 
       role            setter (public API)                 field holds
       verify-off      set_no_tls_verify(bool)             stored[true] when verification was explicitly disabled
@@ -194,13 +202,14 @@ class ConnSettings:
       connector       set_connector(c) / set_config(c)    Some(c): the caller's own TLS connector / configuration
       std-stream      set_std_stream(s)                   Some(s): a pre-opened stream
       conn-timeout    set_conn_timeout(d)                 Some(d)
-    A setter that exists but does not store (on every path, exactly) one field of `self` raises AnchorMissing."""
+    A setter of the table whose own field cannot be determined (its argument reaches no field, or several, or the result is not a
+    settings value the interpreter can take apart) raises AnchorMissing; any other setter that cannot be read is left to U6."""
     ST = 'ldap3::conn::LdapConnSettings'
     BOOL = {'verify-off': ('set_no_tls_verify',), 'starttls': ('set_starttls',)}
     OPT = {'connector': ('set_connector', 'set_config'), 'std-stream': ('set_std_stream',), 'conn-timeout': ('set_conn_timeout',)}
+    SELF = ('param', 'self')
 
     def __init__(self, facts):
-        import absx
         self.facts = facts
         it = facts.items.get(self.ST)
         if it is None or it.get('kind') != 'Struct':
@@ -209,48 +218,112 @@ class ConnSettings:
         self.field = {}      # role -> field name
         self.stored = {}     # bool role -> {True: term, False: term}
         self.setter = {}     # role -> def path of the setter that resolved it
-        SELF = ('param', 'self')
-        for role, names in list(self.BOOL.items()) + list(self.OPT.items()):
-            for nm in names:
-                p = '%s::%s' % (self.ST, nm)
-                if p not in facts.hir:
-                    continue
-                B = hirq.Body(facts, facts.body(p))
-                args = [(b, d) for b, d in B.defs.items() if d['kind'] == 'param' and d['idx'] == 1 and not d['proj']]
-                if len(args) != 1:
-                    raise AnchorMissing('%s: expected (self, value)' % p)
-                runs = {}
-                for val in ((True, False) if role in self.BOOL else (None,)):
-                    I = absx.Interp(facts, B, combinators=True)
-                    env = I.param_env()
-                    if val is not None:
-                        env[args[0][0]] = ('lit', val)
-                    written = set()
-                    for o in I.run(env=env):
-                        if o.kind == 'div':
-                            continue
-                        mine = {k[2]: v for k, v in o.st.heap.items() if k[0] == 'field' and k[1] == SELF}
-                        if o.kind not in ('val', 'ret') or o.val != SELF or len(mine) != 1:
-                            raise AnchorMissing('%s does not return `self` with exactly one field written (%s)' % (p, sorted(mine)))
-                        written.add(tuple(mine.items())[0])
-                    if len(written) != 1:
-                        raise AnchorMissing('%s: the field written depends on the path' % p)
-                    runs[val] = written.pop()
-                fnames = {fv[0] for fv in runs.values()}
-                if len(fnames) != 1 or (role in self.field and self.field[role] not in fnames and role != 'connector'):
-                    raise AnchorMissing('%s: the field written depends on the argument' % p)
-                fname = fnames.pop()
-                if role in self.OPT:
-                    want = ('ctor', 'Some', (('param', args[0][1]['name']),))
-                    if runs[None][1] != want:
-                        raise AnchorMissing('%s does not store Some(<its argument>)' % p)
-                else:
-                    self.stored[role] = {v: runs[v][1] for v in (True, False)}
-                self.field.setdefault(role, fname)
-                self.setter.setdefault(role, p)
-                if role == 'connector' and self.field[role] != fname:
+        self.effects = {}    # setter def path -> {'own': field, 'resets': {other field: term it ends up with}} | {'unreadable': why}
+        roles = {'%s::%s' % (self.ST, nm): role for role, names in list(self.BOOL.items()) + list(self.OPT.items()) for nm in names}
+        for p in self.setters():
+            role = roles.get(p)
+            try:
+                eff = self.read_setter(p, role in self.BOOL or (role is None and (facts.items[p].get('inputs') or [None, None])[1] == 'bool'))
+            except AnchorMissing as e:
+                if role is not None:
+                    raise
+                self.effects[p] = {'unreadable': str(e)}
+                continue
+            self.effects[p] = eff
+            if role is None:
+                continue
+            fname = eff['own']
+            if role in self.field and self.field[role] != fname:
+                if role == 'connector':
                     # both TLS back ends compiled in at once is not a supported configuration of the crate
                     raise AnchorMissing('two caller-supplied connector fields')
+                raise AnchorMissing('%s: the field written depends on the argument' % p)
+            if role in self.OPT:
+                want = ('ctor', 'Some', (('param', eff['arg']),))
+                if any(v != want for v in eff['values']):
+                    raise AnchorMissing('%s does not store Some(<its argument>)' % p)
+            else:
+                self.stored[role] = eff['stored']
+            self.field.setdefault(role, fname)
+            self.setter.setdefault(role, p)
+
+    def setters(self):
+        """the builder methods, by signature: public `fn(LdapConnSettings, T) -> LdapConnSettings` of the struct's own impl"""
+        out = []
+        for p, it in self.facts.items.items():
+            if it.get('kind') == 'AssocFn' and it.get('impl_self') == self.ST and not it.get('impl_trait') and it.get('vis') == 'pub' \
+                    and (it.get('inputs') or []) [:1] == [self.ST] and len(it['inputs']) == 2 and it.get('output') == self.ST and p in self.facts.hir:
+                out.append(p)
+        return sorted(out)
+
+    def result_fields(self, p, val=None):
+        """[{field: term}] - one entry per returning path of setter p, the argument symbolic (val None) or the literal val"""
+        import absx, sem
+        B = hirq.Body(self.facts, self.facts.body(p))
+        args = [(b, d) for b, d in B.defs.items() if d['kind'] == 'param' and d['idx'] == 1 and not d['proj']]
+        selfs = [(b, d) for b, d in B.defs.items() if d['kind'] == 'param' and d['idx'] == 0 and not d['proj']]
+        if len(args) != 1 or len(selfs) != 1:
+            raise AnchorMissing('%s: expected (self, value)' % p)
+        I = absx.Interp(self.facts, B, combinators=True, summaries=[sem.primitive_defaults], inline=lambda c: c.endswith('core::default::Default>::default'))
+        env = I.param_env()
+        env[selfs[0][0]] = self.SELF
+        if val is not None:
+            env[args[0][0]] = ('lit', val)
+        short = hirq.short_def(self.ST)
+        paths = []
+        for o in I.run(env=env):
+            if o.kind == 'div':
+                continue
+            v = o.val
+            if o.kind not in ('val', 'ret') or not (v == self.SELF or (v[0] == 'struct' and v[1] == short)):
+                raise AnchorMissing('%s does not return a settings value that can be taken apart field by field (%s)' % (p, absx.fmt(v)[:60]))
+            got = {}
+            for F in self.fields:
+                t = absx.field_term(v, F) if v[0] == 'struct' else ('field', v, F)
+                if t[0] == 'field' and t in o.st.heap:
+                    t = o.st.heap[t]              # (a store to self.F made before self became the base of the returned value)
+                got[F] = t
+            paths.append(got)
+        if not paths:
+            raise AnchorMissing('%s never returns' % p)
+        return paths, args[0][1]['name']
+
+    def read_setter(self, p, is_bool):
+        import absx
+        ident = lambda F: ('field', self.SELF, F)
+        if is_bool:
+            runs = {}
+            for val in (True, False):
+                paths, arg = self.result_fields(p, val)
+                if any(q != paths[0] for q in paths[1:]):
+                    raise AnchorMissing('%s: the field written depends on the path' % p)
+                runs[val] = paths[0]
+            own = [F for F in self.fields if runs[True][F] != runs[False][F]]
+            if not own:
+                # the argument changes nothing: the field the setter writes all the same (the polarity test then fails on it)
+                own = [F for F in self.fields if runs[True][F] != ident(F) and runs[True][F][0] == 'lit']
+            allp = [runs[True], runs[False]]
+        else:
+            allp, arg = self.result_fields(p)
+            A = ('param', arg)
+            own = sorted({F for q in allp for F in self.fields if absx.leaves(q[F], lambda x: x == A)})
+            if any(not absx.leaves(q[F], lambda x: x == A) for q in allp for F in own):
+                raise AnchorMissing('%s: the field written depends on the path' % p)
+        if len(own) != 1:
+            raise AnchorMissing('%s does not return `self` with exactly one field set from its argument (%s)' % (p, sorted(own)))
+        own = own[0]
+        resets = {}
+        for q in allp:
+            for F in self.fields:
+                if F != own and q[F] != ident(F):
+                    resets.setdefault(F, q[F])
+        eff = {'own': own, 'resets': resets, 'arg': arg, 'values': [q[own] for q in allp]}
+        if is_bool:
+            eff['stored'] = {v: runs[v][own] for v in (True, False)}
+        return eff
+
+    def role_of_field(self, F):
+        return next((r for r, x in self.field.items() if x == F), None)
 
     def polarity_ok(self, role):
         """the setter records the request: what it stores for `true` and for `false` are the two distinct boolean constants"""
